@@ -173,9 +173,12 @@ def _opaque_of_args(nm):
 
     def f(M, st, a):
         scal = tuple(str(val_of(x)) for x in a if not isinstance(x, Ptr))
-        key = (nm, scal)
+        # an array argument at a non-zero offset is another cell's state (cusparse, several systems): another value
+        offs = tuple(x.off for x in a if isinstance(x, Ptr) and x.off)
+        key = (nm, scal, offs)
         if key not in _opaque_cache:
-            _opaque_cache[key] = z3.Real(nm if not scal else f"{nm}({','.join(scal)})")
+            base = nm if not scal else f"{nm}({','.join(scal)})"
+            _opaque_cache[key] = z3.Real(base if not offs else f"{base}@{'+'.join(map(str, offs))}")
         return st, _opaque_cache[key]
 
     return f
